@@ -913,7 +913,7 @@ example (ρ : ExtOracle natOps) (hρ : OracleFlat ρ) (n : Nat)
 
 /-! ### names as byte strings -/
 
-theorem _root_.ByteArray.toList_loop_eq (bs : ByteArray) : ∀ (i : Nat) (r : List UInt8),
+theorem byteArray_toList_loop_eq (bs : ByteArray) : ∀ (i : Nat) (r : List UInt8),
     ByteArray.toList.loop bs i r = r.reverse ++ bs.data.toList.drop i := by
   intro i r
   induction i, r using ByteArray.toList.loop.induct bs with
@@ -934,13 +934,13 @@ theorem _root_.ByteArray.toList_loop_eq (bs : ByteArray) : ∀ (i : Nat) (r : Li
     have hi : bs.data.toList.length ≤ i := by rw [Array.length_toList]; omega
     rw [List.drop_eq_nil_of_le hi, List.append_nil]
 
-theorem _root_.ByteArray.toList_eq_data (bs : ByteArray) : bs.toList = bs.data.toList := by
-  rw [ByteArray.toList, ByteArray.toList_loop_eq]; simp
+theorem byteArray_toList_eq_data (bs : ByteArray) : bs.toList = bs.data.toList := by
+  rw [ByteArray.toList, byteArray_toList_loop_eq]; simp
 
 /-- different names are different table keys -/
 theorem bytesOf_inj {a b : String} (h : bytesOf a = bytesOf b) : a = b := by
   simp only [bytesOf] at h
-  rw [ByteArray.toList_eq_data, ByteArray.toList_eq_data] at h
+  rw [byteArray_toList_eq_data, byteArray_toList_eq_data] at h
   exact String.toByteArray_inj.mp (ByteArray.ext (Array.toList_inj.mp h))
 
 /-- with at least one module the reference program cannot finish at level 0 (storing the first module function
